@@ -25,6 +25,11 @@ def _rates():
     return rates.generate(os.path.join(REPO, 'src/quantity/money/__init__.py'))
 
 
+def _fraction():
+    from . import fraction
+    return fraction.generate(os.path.join(REPO, 'src/quantity/money/__init__.py'))
+
+
 def _oplayer():
     from . import oplayer
     return oplayer.generate(os.path.join(REPO, 'src/quantity/__init__.py'))
@@ -85,6 +90,7 @@ GENERATORS = [
     ('QuantityImpl', _qlayer),
     ('AllocImpl', _alloc),
     ('RatesImpl', _rates),
+    ('FractionImpl', _fraction),
     ('OpsImpl', _oplayer),
     ('MoneyConvImpl', _mconv),
     ('ConvStackImpl', _cstack),
